@@ -181,6 +181,7 @@ func (c *Client) Call(typ int, fields ...refcodec.Field) (refcodec.Tran, bool) {
 
 func (c *Client) await(id uint32) (refcodec.Tran, bool) {
 	deadline := time.Now().Add(Watchdog)
+	hardCap := time.Now().Add(20 * Watchdog)
 	scanned := 0
 	c.LastWhy = ""
 	check := func() (refcodec.Tran, bool) {
@@ -198,9 +199,15 @@ func (c *Client) await(id uint32) (refcodec.Tran, bool) {
 		}
 		if c.Conn.Idle() {
 			// request consumed and handled; outputs may still be in flight
-			if !c.Srv.Quiesce(Watchdog) {
-				c.LastWhy = "watchdog: the server did not become quiescent"
-				return refcodec.Tran{}, false
+			for !c.Srv.Quiesce(Watchdog) {
+				// slow (loaded machine) or stuck? As long as the server raises hook events it is slow: keep waiting
+				if time.Now().After(hardCap) || c.Srv.NoProgressFor(20*time.Second) {
+					c.LastWhy = "watchdog: the server did not become quiescent"
+					return refcodec.Tran{}, false
+				}
+				if t, ok := check(); ok {
+					return t, true
+				}
 			}
 			t, ok := check()
 			if !ok {
@@ -209,6 +216,11 @@ func (c *Client) await(id uint32) (refcodec.Tran, bool) {
 			return t, ok
 		}
 		if time.Now().After(deadline) {
+			// the wall-clock limit is no verdict by itself: a server that still raises hook events is slow, not stuck
+			if time.Now().Before(hardCap) && !c.Srv.NoProgressFor(20*time.Second) {
+				deadline = time.Now().Add(Watchdog)
+				continue
+			}
 			c.LastWhy = "watchdog: the request was not consumed in time"
 			return refcodec.Tran{}, false
 		}
@@ -356,18 +368,26 @@ func (t *Transfer) ReadAllUntilDone(d time.Duration) ([]byte, bool) {
 func (c *Client) CallDirect(typ int, fields ...refcodec.Field) (refcodec.Tran, bool) {
 	id := c.Send(typ, fields...)
 	deadline := time.Now().Add(Watchdog)
+	hardCap := time.Now().Add(20 * Watchdog)
 	scanned := 0
-	for time.Now().Before(deadline) {
-		in := c.Inbox()
-		for ; scanned < len(in); scanned++ {
-			if in[scanned].IsReply == 1 && in[scanned].ID == id {
-				return in[scanned], true
+	for {
+		for time.Now().Before(deadline) {
+			in := c.Inbox()
+			for ; scanned < len(in); scanned++ {
+				if in[scanned].IsReply == 1 && in[scanned].ID == id {
+					return in[scanned], true
+				}
 			}
+			if c.Conn.HandlerDone() {
+				return refcodec.Tran{}, false
+			}
+			time.Sleep(20 * time.Microsecond)
 		}
-		if c.Conn.HandlerDone() {
+		// slow or stuck? a server that still raises hook events is slow: keep waiting (see await)
+		if time.Now().After(hardCap) || c.Srv.NoProgressFor(20*time.Second) {
+			c.LastWhy = "watchdog: no reply"
 			return refcodec.Tran{}, false
 		}
-		time.Sleep(20 * time.Microsecond)
+		deadline = time.Now().Add(Watchdog)
 	}
-	return refcodec.Tran{}, false
 }
